@@ -40,18 +40,22 @@ CARRIED = {
     # C15 also: the state vector a user material's history reaches the solid body through is MaterialStrain's (C03
     # framework contract around any user material); the step / substep counters a user callback of a
     # CharacteristicCurve receives are the C09 `curve_callback` contract
-    "C15": [("C01", "solidbody", _stateful), ("C03", "small_strain_user", None), ("C03", "composite", None), ("C09", "curve_callback", None), ("C14", "loads", lambda cfg: cfg.get("item") == "pointload")],
+    "C15": [("C01", "solidbody", _stateful), ("C03", "small_strain_user", None), ("C03", "composite", None), ("C09", "curve_callback", None), ("C14", "loads", lambda cfg: cfg.get("item") == "pointload"), ("C12", "handcoded", _ogden_roxburgh_pair)],
     # solid bodies on mixed u/p/J fields are verified against StubMixedMaterial (blocks == mixed derivatives of the
     # three-field functional), follower loads against StubAreaChange (cofactor and its derivative)
     # ... and the block placement of mixed-field matrices (upper-triangle storage / full block lists) is C02 `mixed_blocks`
-    "C01": [("C03", "mixed", None), ("C03", "kinematics", None), ("C02", "mixed_blocks", None)],
+    # ... the uniform-grid fast path of the assembly (cell-constant integrands broadcast to all cells) is C10 `uniform_region`
+    "C01": [("C03", "mixed", None), ("C03", "kinematics", None), ("C02", "mixed_blocks", None), ("C10", "uniform_region", None)],
+    # regions evaluate the element tables at the points of their default rules: the element identities are C04, the rules
+    # (incl. that inv() leaves the shared default scheme alone) C05; the padded plane-strain hessian is C10 `planestrain_hess`
+    "C06": [("C05", "scheme", lambda cfg: cfg.get("scheme") in ("GaussLegendre", "Triangle", "Tetrahedron") and cfg.get("tier") != "thorough"), ("C10", "planestrain_hess", None)],
     # condensed vs explicit three-field: the explicit side is the real NearlyIncompressible / ThreeFieldVariation law
     # whose blocks are the C03 `mixed` contract
     "C10": [("C03", "mixed", None)],
     # pressure resultants are stated against StubAreaChange
     # ... and the zero total moment of the internal forces is the proved first-moment identity plus Kirchhoff symmetry
     # P F^T = F P^T of the constitutive law: the C11 contracts of the Lagrange wrappers / AD wrappers
-    "C14": [("C03", "kinematics", None), ("C11", "lagrange", None), ("C11", "wrapper", None), ("C11", "handcoded", lambda cfg: cfg.get("part") == "balance")],
+    "C14": [("C03", "kinematics", None), ("C11", "lagrange", None), ("C11", "wrapper", None), ("C11", "handcoded", lambda cfg: cfg.get("part") == "balance"), ("C04", "element", lambda cfg: cfg.get("tier") != "thorough"), ("C13", "cell", lambda cfg: cfg.get("clause") in ("closure", "faces"))],
     # hand-coded vs differentiated versions are compared on the plain call; the hand-coded models' out= buffer variants
     # (what a solid body actually calls) are the C03 `handcoded` contract
     "C12": [("C03", "handcoded", None)],
@@ -61,11 +65,14 @@ CARRIED = {
     # C08 `loadcase` contract (grid stand-in excluded: bounded)
     # the numbering of cell-less points (get_dof0) and of multi-body dual fields (FieldDual / FieldsMixed: mesh.dual with
     # offset / npoints) comes from the mesh bookkeeping, under contract in C16
-    "C08": [("C16", "update_bookkeeping", None), ("C16", "structure", lambda cfg: cfg.get("op") == "dual")],
+    # ... and the (row field, column field) placement of a full list of blocks is C02 `mixed_blocks`
+    "C08": [("C16", "update_bookkeeping", None), ("C16", "structure", lambda cfg: cfg.get("op") == "dual"), ("C02", "mixed_blocks", None)],
     # averaging at the points divides by mesh.cells_per_point (C16 bookkeeping)
     "C19": [("C16", "update_bookkeeping", None)],
     # the free unknowns of a modal analysis are those of dof.partition over the job's boundaries: the selection a Boundary
     # makes (all fx / fy / fz / mode / skip / mask options) is the C08 `boundary` contract
-    "C18": [("C08", "boundary", None)],
+    # ... the prescribed unknowns of cell-less points are C08 `dof0-dof1`; rigid modes carry no strain because the shape
+    # function gradients sum to zero (C04 element identities)
+    "C18": [("C08", "boundary", None), ("C08", "dof0-dof1", None), ("C04", "element", lambda cfg: cfg.get("tier") != "thorough")],
     "C09": [("C15", "Job.evaluate", None), ("C15", "Step.generate", None), ("C08", "loadcase", None), ("C08", "apply", None)],
 }
